@@ -109,6 +109,14 @@ func (e *env) commit(tr *inmemory.InMemoryTrie) (common.Hash, common.Hash, error
 
 func hx(b []byte) string { return "0x" + hex.EncodeToString(b) }
 
+// hv renders a value that is PUT: Put(k, nil) and Put(k, []byte{}) both store the key with an empty value.
+func hv(v []byte) string {
+	if v == nil {
+		return "nil(put as nil, stored as the empty value)"
+	}
+	return hx(v)
+}
+
 func hexKeys(ks [][]byte) []string {
 	out := make([]string, len(ks))
 	for i, k := range ks {
@@ -130,11 +138,11 @@ type scenario struct {
 func (s *scenario) witness() map[string]any {
 	kv := make([]string, len(s.Keys))
 	for i := range s.Keys {
-		kv[i] = hx(s.Keys[i]) + "=" + hx(s.Vals[i])
+		kv[i] = hx(s.Keys[i]) + "=" + hv(s.Vals[i])
 	}
 	puts := make([]string, len(s.Puts))
 	for i := range s.Puts {
-		puts[i] = hx(s.Puts[i][0]) + "=" + hx(s.Puts[i][1])
+		puts[i] = hx(s.Puts[i][0]) + "=" + hv(s.Puts[i][1])
 	}
 	return map[string]any{"trie_version": s.Version, "entries": kv, "gen2_puts": puts, "gen2_deletes": hexKeys(s.Dels)}
 }
@@ -173,6 +181,50 @@ func genVal(r *vcommon.Rand) []byte {
 	}
 }
 
+// genValE is genVal with EMPTY values (num/den of the draws): the key exists and its value has length 0. One in four
+// of them is put as nil, which the trie documents to store as the empty value ("nil means there is no value").
+func genValE(r *vcommon.Rand, num, den int) []byte {
+	if r.Chance(num, den) {
+		if r.Chance(1, 4) {
+			return nil
+		}
+		return []byte{}
+	}
+	return genVal(r)
+}
+
+// emptyInfo: how many keys under a prefix exist with an empty value, and how many of those sit on a branch node
+// (the key is a proper prefix of another key of the state).
+type emptyInfo struct{ n, onBranch int }
+
+func emptyIn(m *vcommon.OrdMap, p []byte) (e emptyInfo) {
+	ks, vs := m.Entries()
+	for i := range ks {
+		if len(vs[i]) != 0 || !bytes.HasPrefix(ks[i], p) {
+			continue
+		}
+		e.n++
+		if i+1 < len(ks) && bytes.HasPrefix(ks[i+1], ks[i]) {
+			e.onBranch++
+		}
+	}
+	return e
+}
+
+// holds decides whether the trie really is the state the model describes: the same entries, and every model key --
+// those with an empty value included -- EXISTS (Get returns non-nil; nil is the trie's "no value").
+func holds(tr *inmemory.InMemoryTrie, m *vcommon.OrdMap) bool {
+	if !m.EqualMap(tr.Entries()) {
+		return false
+	}
+	for _, k := range m.Keys() {
+		if tr.Get(k) == nil {
+			return false
+		}
+	}
+	return true
+}
+
 func genScenario(r *vcommon.Rand) *scenario {
 	s := &scenario{Version: 0}
 	if r.Chance(1, 4) {
@@ -205,29 +257,43 @@ func genScenario(r *vcommon.Rand) *scenario {
 			k = genKey(r, al, maxLen)
 		}
 		if _, ok := m.Get(k); !ok {
-			m.Put(k, genVal(r))
+			m.Put(k, genValE(r, 1, 6))
 		}
 	}
 	ks, vs := m.Entries()
 	for i := range ks {
 		s.Keys = append(s.Keys, append([]byte{}, ks[i]...))
 		s.Vals = append(s.Vals, append([]byte{}, vs[i]...))
+		// an empty value on a branch node: the key is a proper prefix of the next key
+		if i+1 < len(ks) && bytes.HasPrefix(ks[i+1], ks[i]) && r.Chance(1, 3) {
+			s.Vals[i] = []byte{}
+		}
+		if len(s.Vals[i]) == 0 && r.Chance(1, 4) {
+			s.Vals[i] = nil // put as nil = stored as the empty value
+		}
 	}
 	// second generation: overwrite some values, delete some keys, add some keys
 	for i := 0; i < r.Range(1, 5); i++ {
 		switch {
+		case len(s.Keys) > 0 && r.Chance(1, 4): // empty -> non-empty, non-empty -> empty
+			j := r.Intn(len(s.Keys))
+			if len(s.Vals[j]) == 0 {
+				s.Puts = append(s.Puts, [2][]byte{s.Keys[j], genVal(r)})
+			} else {
+				s.Puts = append(s.Puts, [2][]byte{s.Keys[j], genValE(r, 1, 1)})
+			}
 		case len(s.Keys) > 0 && r.Chance(1, 3):
-			s.Puts = append(s.Puts, [2][]byte{vcommon.Pick(r, s.Keys), genVal(r)})
+			s.Puts = append(s.Puts, [2][]byte{vcommon.Pick(r, s.Keys), genValE(r, 1, 6)})
 		case len(s.Keys) > 0 && r.Chance(1, 2):
 			s.Dels = append(s.Dels, vcommon.Pick(r, s.Keys))
 		default:
-			s.Puts = append(s.Puts, [2][]byte{genKey(r, al, maxLen), genVal(r)})
+			s.Puts = append(s.Puts, [2][]byte{genKey(r, al, maxLen), genValE(r, 1, 6)})
 		}
 	}
 	// prefixes
 	seen := map[string]bool{}
 	add := func(p []byte) {
-		if len(s.Prefixes) < 16 && !seen[string(p)] {
+		if len(s.Prefixes) < 18 && !seen[string(p)] {
 			seen[string(p)] = true
 			s.Prefixes = append(s.Prefixes, append([]byte{}, p...))
 		}
@@ -243,6 +309,20 @@ func genScenario(r *vcommon.Rand) *scenario {
 		p := append([]byte{}, k[:cut]...)
 		p[cut-1] &= 0xf0
 		add(p)
+	}
+	// an empty-valued key as the prefix, and the prefix one byte shorter (the key is listed with its siblings)
+	var emptyKeys [][]byte
+	for i := range s.Keys {
+		if len(s.Vals[i]) == 0 && len(s.Keys[i]) > 0 {
+			emptyKeys = append(emptyKeys, s.Keys[i])
+		}
+	}
+	for i := 0; i < 2 && len(emptyKeys) > 0; i++ {
+		k := vcommon.Pick(r, emptyKeys)
+		add(k)
+		if len(k) > 1 {
+			add(k[:len(k)-1])
+		}
 	}
 	for i := 0; i < 3 && len(s.Keys) > 0; i++ {
 		k := vcommon.Pick(r, s.Keys)
@@ -490,6 +570,20 @@ func (k *checker) pairs(path string, sm *modules.StateModule, prefix []byte, pre
 	if len(want) > 0 {
 		c.Count("pairs_nonempty_listings", 1)
 	}
+	// the listing held keys that EXIST with an empty value (expected, and found, as [key, "0x"])
+	if ei := emptyIn(m, prefix); ei.n > 0 {
+		which := "pairs_nonempty_prefix"
+		if len(prefix) == 0 {
+			which = "pairs_empty_prefix"
+		}
+		c.Count(which+"_listings_with_empty_valued_key", 1)
+		if ei.onBranch > 0 {
+			c.Count(which+"_listings_with_empty_value_on_branch_node", 1)
+		}
+		if ei.n == len(want) {
+			c.Count(which+"_listings_of_empty_valued_keys_only", 1)
+		}
+	}
 	return true
 }
 
@@ -540,9 +634,13 @@ func (k *checker) checkState(m *vcommon.OrdMap, block *common.Hash) {
 		if len(p) == 0 {
 			c.Count("prefix_empty", 1)
 		}
-		if _, ok := m.Get(p); ok {
+		if v, ok := m.Get(p); ok {
 			c.Count("prefix_equals_a_key", 1)
+			if len(v) == 0 {
+				c.Count("prefix_equals_an_empty_valued_key", 1)
+			}
 		}
+		ei := emptyIn(m, p)
 		if len(want) == 0 {
 			c.Count("prefix_matching_nothing", 1)
 		}
@@ -557,6 +655,12 @@ func (k *checker) checkState(m *vcommon.OrdMap, block *common.Hash) {
 				for _, q := range pageSizes(c.R, len(want), k.s.AllSizes && path == "cached" && fi == 0) {
 					if !k.paged(path, sm, p, form, q, block, want, dev, m.Len()) {
 						return
+					}
+					if ei.n > 0 {
+						c.Count("paged_enumerations_with_empty_valued_key", 1)
+						if ei.onBranch > 0 {
+							c.Count("paged_enumerations_with_empty_value_on_branch_node", 1)
+						}
 					}
 				}
 				f := form
@@ -600,6 +704,10 @@ func runScenario(c *vcommon.Case, s *scenario) {
 		c.Inconclusive("trie Put failed: " + err.Error())
 		return
 	}
+	if !holds(tr, m1) {
+		c.Inconclusive("the trie does not hold the entries that were put into it, or a key put with an empty value does not exist in it (state construction failed; see C02/C03)")
+		return
+	}
 	h1, _, err := e.commit(tr)
 	if err != nil {
 		c.Inconclusive("cannot commit state: " + err.Error())
@@ -627,7 +735,7 @@ func runScenario(c *vcommon.Case, s *scenario) {
 		}
 		m2.Delete(d)
 	}
-	if !m2.EqualMap(tr2.Entries()) {
+	if !holds(tr2, m2) {
 		// Delete / copy-on-write defects of the trie are C02/C03's business: C38 only needs *a* second state.
 		// Rebuild it with Put only, so that the listing is judged on a state that really holds the model's entries.
 		c.Count("gen2_rebuilt_because_trie_delete_or_snapshot_misbehaved", 1)
@@ -643,7 +751,7 @@ func runScenario(c *vcommon.Case, s *scenario) {
 			}
 		}
 	}
-	if !m2.EqualMap(tr2.Entries()) || !m1.EqualMap(tr.Entries()) {
+	if !holds(tr2, m2) || !holds(tr, m1) {
 		c.Inconclusive("the trie does not hold the entries that were put into it (state construction failed; see C02/C03)")
 		return
 	}
@@ -689,6 +797,36 @@ func runScenario(c *vcommon.Case, s *scenario) {
 			break
 		}
 	}
+	for _, m := range []*vcommon.OrdMap{m1, m2} {
+		if ei := emptyIn(m, nil); ei.n > 0 {
+			shape |= 8
+			c.Count("states_with_empty_valued_key", 1)
+			if ei.onBranch > 0 {
+				shape |= 16
+				c.Count("states_with_empty_value_on_branch_node", 1)
+			}
+			if ei.n == m.Len() {
+				c.Count("states_with_empty_values_only", 1)
+			}
+		}
+	}
+	for _, key := range ks { // the same key in both generations: value emptied / filled / deleted while empty
+		v1, _ := m1.Get(key)
+		v2, in2 := m2.Get(key)
+		switch {
+		case len(v1) == 0 && !in2:
+			c.Count("gen2_deleted_an_empty_valued_key", 1)
+		case len(v1) == 0 && len(v2) > 0:
+			c.Count("gen2_gave_an_empty_valued_key_a_value", 1)
+		case len(v1) > 0 && in2 && len(v2) == 0:
+			c.Count("gen2_emptied_the_value_of_a_key", 1)
+		}
+	}
+	for i := range s.Vals {
+		if s.Vals[i] == nil {
+			c.Count("keys_put_with_nil_value_stored_as_empty", 1)
+		}
+	}
 	c.Distinct(fmt.Sprintf("v%d|n%d|shape%d|%s", s.Version, m1.Len(), shape, strings.Join(hexKeys(ks), ",")))
 }
 
@@ -719,7 +857,25 @@ func fixedScenarios() []*scenario {
 		}
 		return s
 	}
+	// empty sets the value of the given keys to the empty value (the key EXISTS; it is rendered [key, "0x"])
+	empty := func(s *scenario, keys ...string) *scenario {
+		for _, k := range keys {
+			found := false
+			for i := range s.Keys {
+				if bytes.Equal(s.Keys[i], b(k)) {
+					s.Vals[i], found = []byte{}, true
+				}
+			}
+			if !found {
+				panic("fixed scenario: no key " + k)
+			}
+		}
+		return s
+	}
 	long := bytes.Repeat([]byte{0x77}, 40)
+	s9 := empty(mk(1, []string{"ab", "abcd", "abce", "cd", "cd01"}, []string{"ab", "", "abcd", "cd", "abce"},
+		[][2]string{{"abcd", ""}, {"ab", hex.EncodeToString(long)}}, nil), "ab", "abce")
+	s9.Vals[1] = long
 	s5 := mk(1, []string{"10", "1f", "1000", "01"}, []string{"", "10", "1f", "01"}, [][2]string{{"1f", hex.EncodeToString(long)}}, nil)
 	s5.Vals[0] = long
 	return []*scenario{
@@ -733,6 +889,17 @@ func fixedScenarios() []*scenario {
 		mk(0, nil, []string{"", "00", "10"}, [][2]string{{"10", "01"}}, nil),
 		s5,
 		mk(0, []string{"f0", "ff", "f000", "0f", "00"}, []string{"f0", "00", "f000", "ff", ""}, nil, []string{"f0"}),
+		// W3 (seeded defect missed while no state held an empty value: GetPairs with a non-empty prefix dropped keys
+		// whose value is empty, taking "length 0" for "removed"). Empty value on a branch node (ab, cd, the empty
+		// key), on leaves (abce, cd01, ef); generation 2 fills ab, empties abcd, deletes abce and puts a new empty key.
+		empty(mk(0, []string{"", "ab", "abcd", "abce", "cd", "cd01", "ef", "20"}, []string{"ab", "abce", "cd", "ef", "", "abcd", "a0", "cd01", "20"},
+			[][2]string{{"ab", "07"}, {"abcd", ""}, {"ee", ""}}, []string{"abce"}), "", "ab", "abce", "cd", "cd01", "ef"),
+		// every value empty, under a prefix ending in a zero nibble (C38-K1 has to stay attributable: the deviation
+		// oracle carries the empty values too)
+		empty(mk(0, []string{"10", "1000", "10ff", "11", "1f"}, []string{"10", "1f", "", "1000", "11"},
+			[][2]string{{"1f", "01"}, {"12", ""}}, []string{"11"}), "10", "1000", "10ff", "11", "1f"),
+		// V1: empty values next to a hashed (> 32 byte) value; the branch value goes empty -> hashed, a leaf hashed -> empty
+		s9,
 	}
 }
 
@@ -751,6 +918,19 @@ func TestVerifC38(t *testing.T) {
 	r.Floor("pairs_nonempty_listings", 2000)
 	r.Floor("states_with_empty_key", 10)
 	r.Floor("states_with_key_that_prefixes_another", 100)
+	// keys that exist with an EMPTY value ([key, "0x"] in GetPairs; listed by GetKeysPaged)
+	r.Floor("states_with_empty_valued_key", 200)
+	r.Floor("states_with_empty_value_on_branch_node", 200)
+	r.Floor("paged_enumerations_with_empty_valued_key", 15000)
+	r.Floor("paged_enumerations_with_empty_value_on_branch_node", 10000)
+	r.Floor("pairs_empty_prefix_listings_with_empty_valued_key", 2000)
+	r.Floor("pairs_nonempty_prefix_listings_with_empty_valued_key", 3000)
+	r.Floor("pairs_nonempty_prefix_listings_with_empty_value_on_branch_node", 1500)
+	r.Floor("pairs_empty_prefix_listings_with_empty_value_on_branch_node", 1500)
+	r.Floor("prefix_equals_an_empty_valued_key", 700)
+	r.Floor("gen2_emptied_the_value_of_a_key", 50)
+	r.Floor("gen2_gave_an_empty_valued_key_a_value", 40)
+	r.Floor("gen2_deleted_an_empty_valued_key", 15)
 
 	fx := fixedScenarios()
 	r.Fixed("fixed", len(fx), func(c *vcommon.Case) {
@@ -763,6 +943,11 @@ func TestVerifC38(t *testing.T) {
 	r.Floor("chain_older_block_relisted_after_newer", 200)
 	r.Floor("chain_reorgs_to_fork", 40)
 	r.Floor("chain_blocks_imported", 500)
+	r.Floor("chain_listings_with_empty_valued_key", 1500)
+	r.Floor("chain_listings_with_empty_value_on_branch_node", 800)
+	r.Floor("chain_listings_with_key_nonempty_then_empty_then_nonempty_across_blocks", 200)
+	r.Floor("chain_listings_with_key_emptied_since_parent_block", 600)
+	r.Floor("chain_listings_where_parent_block_held_key_with_empty_value_now_deleted", 250)
 	fc := fixedChains()
 	r.Fixed("fixedchain", len(fc), func(c *vcommon.Case) { runChain(c, fc[c.Idx]) })
 	r.Cases("chain", r.Scale(160), func(c *vcommon.Case) {
